@@ -90,6 +90,30 @@ DESC = {
  ("wt3_L",4):("C15","transport/telnet","deferred reset clears only the read deadline","Write on the connection after the dial deadline has passed"),
  ("wt3_L",5):("C19","transport","digi parsing by strings.Split; length check on the whole path","short target together with a digi path or trailing slash"),
  ("wt3_L",6):("C20","catalog","decToMinDec in integer arithmetic with int() truncation","minutes whose fifth decimal is 5 or more"),
+ ("wt4_M",1):("C01","fbb","inbound proposal MID upper-cased in parseB2Proposal","inbound MID containing a lower-case letter"),
+ ("wt4_M",2):("C02","fbb","nAccepted bounds the receive loop but is decremented for skipped proposals too","answer line with - or = in front of a + (FS -+)"),
+ ("wt4_M",3):("C03","fbb","cleanString: if str[0]==0 became for str[0]==0","line consisting only of NUL bytes"),
+ ("wt4_M",4):("C04","fbb","TrafficStats.Sent appended right after writeCompressed instead of after the acknowledgement","transfer accepted in FS but refused after the data; the failing sender's statistics"),
+ ("wt4_M",5):("C05","fbb","parseFW cuts the whole ;FW: line at the first pipe instead of per entry","forwarder list where a hashed address is followed by another address"),
+ ("wt4_M",6):("C03","fbb","block confirmation skips ';' comment lines with the Peek error dropped","comment line after the block and the input ending right there"),
+ ("wt4_N",1):("C09","fbb","ASCII-only fast path in the header word encoder","pure-ASCII subject or attachment name with an inner CR or LF"),
+ ("wt4_N",2):("C09","fbb","Write re-formats the Date header from the Local() time without UTC()","process local zone other than UTC"),
+ ("wt4_N",3):("C16","fbb","callback error for an auxiliary address: address dropped from the ;FW: line","callback returning an error for an auxiliary address"),
+ ("wt4_N",4):("C18","fbb","toLatin1 fast path with r < unicode.MaxLatin1","U+00FF in the body"),
+ ("wt4_N",5):("C19","transport","deny-list of schemes without digipeaters replaced by an incomplete allow-list","digipeater path with scheme agwpe+ax25 or an application-registered scheme"),
+ ("wt4_N",6):("C20","catalog","hasPosition sanity check with open intervals","latitude exactly +-90 or longitude exactly +-180"),
+ ("wt4_O",1):("C13","transport/ax25/agwpe","Conn.Close returns early on any flush error other than EOF","Close while the TNC answers the Y query badly"),
+ ("wt4_O",2):("C13","transport/ax25/agwpe","per-port table of active inbound links not cleaned when the remote ends the session","second inbound connect from the same callsign after a remote disconnect"),
+ ("wt4_O",3):("C14","transport/ardop","parseCtrlMsg leaves the value unset on an Atoi error","non-numeric BUFFER argument from the TNC"),
+ ("wt4_O",4):("C14","transport/ardop","go ptt.SetPTT(...): requests no longer serialised","PTT controller with latency when keying up"),
+ ("wt4_O",5):("C15","transport/telnet","sendLine(conn, format, a...) called with the user string as format","a % in the callsign or password"),
+ ("wt4_O",6):("C15","transport/telnet","Dialer timeout only applied when the context has no deadline","context deadline later than the dial timeout and a silent server"),
+ ("wt4_P",1):("C06","lzhuf","bit reader refills a chunk buffer with one Read and drops bytes returned together with an error","source returning its last bytes together with io.EOF"),
+ ("wt4_P",2):("C06","lzhuf","decompression-bomb guard at 32 output bytes per input byte","at least ~7.5 KB of a repeated byte or short period"),
+ ("wt4_P",3):("C08","lzhuf","decoder state recycled through a sync.Pool without re-zeroing the ring tail","an earlier Reader closed in the same process, then a match pointing more than 1988 bytes back"),
+ ("wt4_P",4):("C10","mailbox","ProcessInbound skips a MID already in in/","storing a MID that is already in the inbox (read, or with different bytes)"),
+ ("wt4_P",5):("C11","mailbox","writeFileAtomic writes data <= 4096 bytes directly to the final name","crash inside the write of a small message"),
+ ("wt4_P",6):("C12","mailbox","shared store() helper loses the validMID check of AddOut/ProcessInbound","received message whose Mid header contains path separators"),
 }
 results = {}
 for f in ['/tmp/seedfirst.txt'] + sorted(glob.glob('/tmp/seedbatch*.txt')) + sorted(glob.glob('/tmp/seedfinal*.txt')):
